@@ -534,3 +534,98 @@ func TwoQueensFamily(all bool, emit func(p *ref.Pos)) {
 		}
 	}
 }
+
+// MobilityExtremes enumerates positions in which ONE piece has as many moves and captures as the
+// board allows: a white queen, rook or bishop on every square of an otherwise empty board, and for
+// every subset of its rays a black piece (knight, rook or bishop in turn) on the last square of the
+// ray - all rays open to the edge, any number of them ending in a capture. The kings stand on the
+// first pair of squares that keeps the position legal with neither side in check; both sides to
+// move. Evaluations that tabulate or bound "number of moves of a piece" meet their extremes here
+// (a queen in the centre: 27 moves, up to 8 of them captures).
+func MobilityExtremes(all bool, emit func(p *ref.Pos)) {
+	dirs := map[int8][][2]int{
+		ref.R: {{1, 0}, {-1, 0}, {0, 1}, {0, -1}},
+		ref.B: {{1, 1}, {1, -1}, {-1, 1}, {-1, -1}},
+	}
+	dirs[ref.Q] = append(append([][2]int{}, dirs[ref.R]...), dirs[ref.B]...)
+	for _, x := range []int8{ref.Q, ref.R, ref.B} {
+		for s := 0; s < 64; s++ {
+			if f, r := s%8, s/8; !all && x != ref.Q && !(f >= 2 && f <= 5 && r >= 2 && r <= 5) {
+				continue // quick: rooks and bishops in the centre only
+			}
+			// the last square of every ray
+			var ends []int
+			for _, d := range dirs[x] {
+				f, r, last := s%8, s/8, -1
+				for f+d[0] >= 0 && f+d[0] < 8 && r+d[1] >= 0 && r+d[1] < 8 {
+					f, r = f+d[0], r+d[1]
+					last = r*8 + f
+				}
+				if last >= 0 {
+					ends = append(ends, last)
+				}
+			}
+			for _, blocker := range []int8{ref.N, ref.R, ref.B} {
+				if !all && blocker != ref.N && x != ref.Q {
+					continue
+				}
+				for mask := 0; mask < 1<<len(ends); mask++ {
+					if blocker != ref.N && mask == 0 {
+						continue // the bare piece once is enough
+					}
+					base := &ref.Pos{EP: -1, White: true}
+					base.Sq[s] = x
+					for i, e := range ends {
+						if mask&(1<<i) != 0 {
+							base.Sq[e] = -blocker
+						}
+					}
+					placed := false
+					for wk := 0; wk < 64 && !placed; wk++ {
+						if base.Sq[wk] != 0 || onRay(s, wk, dirs[ref.Q]) {
+							continue
+						}
+						for bk := 63; bk >= 0 && !placed; bk-- {
+							if base.Sq[bk] != 0 || bk == wk || onRay(s, bk, dirs[ref.Q]) || (abs(bk%8-wk%8) <= 1 && abs(bk/8-wk/8) <= 1) {
+								continue
+							}
+							p := *base
+							p.Sq[wk], p.Sq[bk] = ref.K, -ref.K
+							if p.InCheck(true) || p.InCheck(false) {
+								continue
+							}
+							placed = true
+							for _, white := range []bool{true, false} {
+								q := p
+								q.White = white
+								if Valid(&q) {
+									emit(&q)
+								}
+							}
+						}
+					}
+				}
+			}
+		}
+	}
+}
+
+func onRay(from, to int, dirs [][2]int) bool {
+	for _, d := range dirs {
+		f, r := from%8, from/8
+		for f+d[0] >= 0 && f+d[0] < 8 && r+d[1] >= 0 && r+d[1] < 8 {
+			f, r = f+d[0], r+d[1]
+			if r*8+f == to {
+				return true
+			}
+		}
+	}
+	return false
+}
+
+func abs(x int) int {
+	if x < 0 {
+		return -x
+	}
+	return x
+}
